@@ -1,9 +1,99 @@
 import Driver.Util
+import MpcVerif.Model.Builders
 
 namespace Drv.C07
+open Mpc Mpc.Bld Drv
 
-/-- Line-protocol handler of property C07 (stub). -/
-def handle (_args : List String) : String := "bad-op"
+def opLetter : Op → Char
+  | .xor => 'x' | .xnor => 'n' | .and => 'a' | .or => 'o' | .inv => 'i'
+
+def gateStr (g : Gate) : String :=
+  s!"{opLetter g.op}{g.in0}.{g.in1}.{g.out}"
+
+/-- `<nIn> <gates> <outs>` as printed by the harness (`Built.RawLine`). -/
+def rawLine (s : St) (outs : List Nat) : String :=
+  let gs := if s.gates.isEmpty then "-" else ";".intercalate (s.gates.toList.map gateStr)
+  s!"{s.nIn} {gs} {",".intercalate (outs.map toString)}"
+
+/-- Builder dispatch: `none` = the Go builder returns an error / leaves result
+wires unconnected for these widths. -/
+def build (name : String) (gmw : Bool) (par : Nat) (x y w : List Nat) (nz : Nat) :
+    BM (Option (List Nat)) :=
+  let ok (m : BM (List Nat)) : BM (Option (List Nat)) := do let r ← m; pure (some r)
+  let mx := max x.length y.length
+  match name with
+  | "add" => ok (newAdder gmw x y nz)
+  | "sub" => ok (newSubtractor gmw x y nz)
+  | "addks" => ok (ksAdder x y nz)
+  | "subks" => ok (ksSubtractor x y nz)
+  | "mul" => newMultiplier gmw x y nz
+  | "mularray" => arrayMultiplier x y nz
+  | "mulwallace" => ok (wallace x y nz)
+  | "mulkara" => karatsuba gmw par (2 * mx + 8) x y nz
+  | "ugt" => ok (comparator false .gt x y)
+  | "uge" => ok (comparator false .ge x y)
+  | "ult" => ok (comparator false .lt x y)
+  | "ule" => ok (comparator false .le x y)
+  | "igt" => ok (comparator true .gt x y)
+  | "ige" => ok (comparator true .ge x y)
+  | "ilt" => ok (comparator true .lt x y)
+  | "ile" => ok (comparator true .le x y)
+  | "eq" => ok (eqComparator x y)
+  | "neq" => ok (neqComparator x y)
+  | "band" => if nz ≤ mx then ok (binaryAnd x y nz) else pure none
+  | "bor" => if nz ≤ mx then ok (binaryOr x y nz) else pure none
+  | "bxor" => if nz ≤ mx then ok (binaryXor x y nz) else pure none
+  | "bclr" => if nz ≤ mx then ok (binaryClear x y nz) else pure none
+  | "land" => ok (logicalAnd x y)
+  | "lor" => ok (logicalOr x y)
+  | "bts" => ok (bitSetTest x par)
+  | "btc" => ok (bitClrTest x par)
+  | "mux" => newMUX (w.getD 0 0) x y nz
+  | "index" => ok (newIndex par x y)
+  | "hamming" => if mx ≥ 2 then ok (hamming gmw x y nz) else pure none
+  | _ => pure none
+
+def known (name : String) : Bool :=
+  ["add", "sub", "addks", "subks", "mul", "mularray", "mulwallace", "mulkara", "ugt", "uge", "ult", "ule",
+   "igt", "ige", "ilt", "ile", "eq", "neq", "band", "bor", "bxor", "bclr", "land", "lor", "bts", "btc",
+   "mux", "index", "hamming"].contains name
+
+/-- Build like the harness: inputs `x ‖ y ‖ w`, optional prologue, builder, `ret`. -/
+def buildCircuit (name : String) (gmw pro : Bool) (nx ny nw nz par : Nat) : Option (St × List Nat) :=
+  let s0 := initSt (nx + ny + nw) pro
+  let r := build name gmw par (inputWires 0 nx) (inputWires nx ny) (inputWires (nx + ny) nw) nz s0
+  match r.1 with
+  | none => none
+  | some z =>
+    let o := retWires z r.2
+    some (o.2, o.1)
+
+def nat! (s : String) : Nat := s.toNat?.getD 0
+
+/-- Ops:
+ `gen  <builder> <target> <pro> <nx> <ny> <nw> <nz> <par>`          -> canonical gate list
+ `run  <builder> <target> <pro> <nx> <ny> <nw> <nz> <par> <inbits>` -> output bits of the generated circuit
+ `evalc <numWires> <nIn> <nOut> <gates> <inbits>`                   -> `Circuit.compute` of a compiled circuit -/
+def handle (args : List String) : String :=
+  match args with
+  | ["gen", b, t, pro, nx, ny, nw, nz, par] =>
+    if !known b then "bad-op" else
+    match buildCircuit b (t == "1") (pro == "1") (nat! nx) (nat! ny) (nat! nw) (nat! nz) (nat! par) with
+    | none => "unconnected-or-error"
+    | some (s, outs) => rawLine s outs
+  | ["run", b, t, pro, nx, ny, nw, nz, par, inb] =>
+    if !known b then "bad-op" else
+    match buildCircuit b (t == "1") (pro == "1") (nat! nx) (nat! ny) (nat! nw) (nat! nz) (nat! par) with
+    | none => "unconnected-or-error"
+    | some (s, outs) =>
+      let v := s.vals (parseBits inb)
+      bitsStr (outs.map fun w => v.getD w false)
+  | ["thr", n] => toString (multiplierArrayThreshold (nat! n))
+  | ["evalc", nw, nin, nout, gates, inb] =>
+    match parseCircuit nw nin nout gates with
+    | some c => bitsStr (c.compute (parseBits inb))
+    | none => "bad-op"
+  | _ => "bad-op"
 
 end Drv.C07
 
